@@ -29,7 +29,7 @@ MANIFEST = dict(
          "the single-block run (C08_block_independent; simulation between the incremental state machine with its end-of-block flush and the single scan: locality of the search on "
          "the retained buffer, prefix stability, split of a scan at an intermediate limit, the flush emits the same record the next edge would). Also proved: fixed-length modes give "
          "full-length records, at most one record per edge, variable-length records never overlap nor pass the next edge, the search of a block never reads outside the buffer. "
-         "Never indexes outside is PROVED across blocks too (C08_no_oob: for any stream, any block lengths incl. empty or shorter than a record, invariant EmtSafe - the pending edge is recorded, absent, or recent enough that its whole record is retained). Record contents are C01_block_exact. The REAL pipeline is run cut into blocks and as a single block on every case and the record sequences must be identical; a crash is "
+         "Never indexes outside is PROVED across blocks too (C08_no_oob: for any stream, any block lengths incl. empty or shorter than a record, invariant EmtSafe - the pending edge is recorded, absent, or recent enough that its whole record is retained). The block independence is carried from the specifications to the RECORDS of the real step (append -> TriggerData -> trim, any block time stamps): C08_records_block_independent - same frames, pre-trigger lengths and samples whatever the partition (Lemmas/EmtRecs: records = cuts of the specifications = excerpts of the delivered stream). The REAL pipeline is run cut into blocks and as a single block on every case and the record sequences must be identical; a crash is "
          "a violation; the output is also compared with the Lean model.",
     note="Trusted: Lean 4.33 kernel (axioms propext, Classical.choice, Quot.sound only; audited every run); the hand-written model is tied to the Go code only by "
          "differential testing with seeded generators (not a proof). The least-squares kink fit is an oracle table obtained from the real zeroThreshold; the "
@@ -44,6 +44,8 @@ THEOREMS = [
     ("DastardV.Props.C08", "DastardV.C08.C08_search_local"),
     ("DastardV.Props.C08", "DastardV.C08.C08_block_independent"),
     ("DastardV.Props.C08", "DastardV.C08.C08_no_oob"),
+    ("DastardV.Props.C08", "DastardV.C08.C08_records_block_independent"),
+    ("DastardV.Lemmas.EmtRecs", "DastardV.Trig.runFull_specs"),
     ("DastardV.Lemmas.EmtSafe", "DastardV.Trig.emtSafe_step"),
     ("DastardV.Lemmas.EmtSim", "DastardV.Trig.sim_loop"),
     ("DastardV.Lemmas.EmtStep", "DastardV.Trig.stepEmt_inv"),
